@@ -11,8 +11,8 @@ open Babylon.Core
 theorem Inv.congr {s s' : State} (hI : Inv s) (h1 : s'.pc = s.pc) (h2 : s'.lock = s.lock) (h3 : s'.node = s.node)
     (h4 : s'.box = s.box) (h5 : s'.fr = s.fr) (h6 : s'.glist = s.glist) (h7 : s'.hnext = s.hnext)
     (h8 : s'.wslot = s.wslot) (h9 : s'.bad = s.bad) : Inv s' := by
-  obtain ⟨kindC, kindF, lockOk, frWait, freshOk, freshVer, freshVerT, freshNode, wFreeTaken, preOk, postOk, ownOk, rsmTaken,
-    freeTaken, pubNode, waiting, parked, listOk, scanOk, prevOk, oScanOk, oNoneOk, aUnlockOk, aNextOk, aResumeOk, aFreeOk,
+  obtain ⟨kindC, kindF, lockOk, frWait, freshOk, freshUniq, freshVer, freshVerT, freshNode, wFreeTaken, preOk, postOk, ownOk, rsmTaken,
+    freeTaken, pubNode, waiting, parked, listOk, scanOk, prevOk, placed, oScanOk, oNoneOk, aUnlockOk, aNextOk, aResumeOk, aFreeOk,
     noRead, cTakeOk, allocUsed, noBad⟩ := hI
   constructor <;> (try unfold ListOk ScanOk PrevOk MemOk CancelPending at *) <;> simp only [h1, h2, h3, h4, h5, h6, h7, h8, h9] <;> assumption
 
@@ -20,7 +20,7 @@ set_option maxHeartbeats 1600000 in
 theorem Inv.pcOnly {s : State} (hI : Inv s) {a : Actor} {p : Pc}
     (hw : p.isWait = (s.pc a).isWait) (hf : p.fresh = (s.pc a).fresh) (hpre : p.pre = (s.pc a).pre)
     (hpost : p.post = (s.pc a).post) (hl : p.locks = (s.pc a).locks) (hpd : p.pend = (s.pc a).pend)
-    (hidle : p = .idle → s.pc a = .idle) (hidle' : s.pc a = .idle → ∀ h, a ≠ .fr h)
+    (hcl : ∀ h, a ≠ .fr h)
     (hwait : (s.pc a).isWait = false)
     (hq1 : ∀ x, p ≠ .cLock x) (hq2 : ∀ x g, p ≠ .cRemove x g) (hq3 : ∀ x, p ≠ .cResume x) (hq4 : ∀ x, p ≠ .cFree x)
     (ho1 : ∀ x, s.pc a ≠ .cLock x) (ho2 : ∀ x g, s.pc a ≠ .cRemove x g) (ho3 : ∀ x, s.pc a ≠ .cResume x) (ho4 : ∀ x, s.pc a ≠ .cFree x)
@@ -37,8 +37,8 @@ theorem Inv.pcOnly {s : State} (hI : Inv s) {a : Actor} {p : Pc}
     (hos : ∀ f hd tail cur took pend skip l0, s.pc a ≠ .aScan f hd tail cur took pend skip l0) :
     Inv (s.setPc a p) := by
   have hI' := hI
-  obtain ⟨kindC, kindF, lockOk, frWait, freshOk, freshVer, freshVerT, freshNode, wFreeTaken, preOk, postOk, ownOk, rsmTaken,
-    freeTaken, pubNode, waiting, parked, listOk, scanOk, prevOk, oScanOk, oNoneOk, aUnlockOk, aNextOk, aResumeOk, aFreeOk,
+  obtain ⟨kindC, kindF, lockOk, frWait, freshOk, freshUniq, freshVer, freshVerT, freshNode, wFreeTaken, preOk, postOk, ownOk, rsmTaken,
+    freeTaken, pubNode, waiting, parked, listOk, scanOk, prevOk, placed, oScanOk, oNoneOk, aUnlockOk, aNextOk, aResumeOk, aFreeOk,
     noRead, cTakeOk, allocUsed, noBad⟩ := hI
   constructor
   case kindC => inv_auto
@@ -46,6 +46,7 @@ theorem Inv.pcOnly {s : State} (hI : Inv s) {a : Actor} {p : Pc}
   case lockOk => inv_auto
   case frWait => inv_auto
   case freshOk => inv_auto
+  case freshUniq => inv_auto
   case freshVer => inv_auto
   case freshVerT => inv_auto
   case freshNode => inv_auto
@@ -76,6 +77,7 @@ theorem Inv.pcOnly {s : State} (hI : Inv s) {a : Actor} {p : Pc}
     · inv_simp; grind
     · inv_simp; grind [updA, Pc.pend, Pc.locks]
     · inv_simp; grind [updA]
+  case placed => inv_auto
   case oScanOk => inv_auto
   case oNoneOk => inv_auto
   case aUnlockOk => inv_auto
